@@ -33,7 +33,9 @@ VARIABLES dir,     \* Names -> "absent" | "v1" | "v2"   (present with metadata v
 cvars == <<dir, hist, clock, T, file, pc, mem, req, started, out, wpos>>
 
 Versions == {"absent", "v1", "v2"}
-Protos   == {"G", "GP", "GD", "H"}    \* Gopher, Gopher+ (+ form), Gopher+ ($ form: attribute listing), HTTP
+Protos   == {"G", "GP", "GD", "H", "HH"}   \* Gopher, Gopher+ (+ form), Gopher+ ($ form: attribute listing), HTTP GET,
+                                           \* HTTP HEAD (prepare() without getdirlist(): nothing saved, nothing rendered)
+HeadOnly(p) == p = "HH"
 
 NoFile == [exists |-> FALSE, mtime |-> 0, chunks |-> <<>>, zero |-> FALSE]
 NoOut  == [src |-> "none", d |-> [n \in Names |-> "absent"], leak |-> FALSE, at |-> 0]
@@ -124,8 +126,11 @@ Load(w) ==
     /\ pc[w] = "load"
     /\ IF Complete(file)
        THEN /\ mem' = [mem EXCEPT ![w] = [d |-> file.chunks[1].d, leak |-> file.chunks[1].leak]]
-            /\ out' = [out EXCEPT ![w] = [NoOut EXCEPT !.src = "cache"]]
-            /\ pc' = [pc EXCEPT ![w] = "render"]
+            \* HEAD: the listing is prepared, only the headers go out: the request is over here (recorded as if rendered)
+            /\ out' = [out EXCEPT ![w] = IF HeadOnly(req[w])
+                                         THEN [src |-> "cache", d |-> file.chunks[1].d, leak |-> file.chunks[1].leak, at |-> clock]
+                                         ELSE [NoOut EXCEPT !.src = "cache"]]
+            /\ pc' = [pc EXCEPT ![w] = IF HeadOnly(req[w]) THEN "done" ELSE "render"]
        ELSE /\ pc' = [pc EXCEPT ![w] = "gen"] /\ UNCHANGED <<mem, out>>
     /\ UNCHANGED <<dir, hist, clock, T, file, req, started, wpos>>
 
@@ -133,8 +138,10 @@ Load(w) ==
 Gen(w) ==
     /\ pc[w] = "gen"
     /\ mem' = [mem EXCEPT ![w] = [d |-> dir, leak |-> FALSE]]
-    /\ out' = [out EXCEPT ![w] = [NoOut EXCEPT !.src = "gen"]]
-    /\ pc' = [pc EXCEPT ![w] = "save_open"]
+    \* HEAD never reaches getdirlist(): the regenerated listing is neither saved nor rendered
+    /\ out' = [out EXCEPT ![w] = IF HeadOnly(req[w]) THEN [src |-> "gen", d |-> dir, leak |-> FALSE, at |-> clock]
+                                 ELSE [NoOut EXCEPT !.src = "gen"]]
+    /\ pc' = [pc EXCEPT ![w] = IF HeadOnly(req[w]) THEN "done" ELSE "save_open"]
     /\ UNCHANGED <<dir, hist, clock, T, file, req, started, wpos>>
 
 \* savecache(): open(..., "wb") truncates in place (InPlaceWriter, SaveEvenIfZero)
